@@ -240,8 +240,26 @@ def s_clsmisc(g, depth):
     r = g.r
     if getattr(g, "try_ctx", [[]])[-1]:
         return g.s_print(depth)
-    c = r.below(6)
+    c = r.below(8)
     n = g.fresh("Z")
+    if c >= 6:
+        # callables of every kind kept in instance fields and class-level variables, called with the fused
+        # obj.field(args) syntax, through parentheses, and after being copied to a variable
+        L = ["#[constructor(new)] class %sHolder { fn own(self, a) { return [\"own\", a]; } }" % n,
+             "#[constructor(new)] class %sOther { fn meth(self, a) { return [\"other\", a]; } #[static] fn stat(a) { return [\"stat\", a]; } }" % n,
+             "var %sh = %sHolder.new(); var %so = %sOther.new(); var %slog = [];" % (n, n, n, n, n)]
+        kinds = [("%so.meth" % n, "1"), ("%so.derives" % n, "%sOther" % n), ("%so.derives" % n, "%sHolder" % n), ("%slog.push" % n, "\"p\""), ("%slog.len" % n, ""),
+                 ("\"text\".len", ""), ("type", "2"), ("String.from", "3"), ("|a| [\"lam\", a]", "4"), ("%sOther.stat" % n, "5"), ("%sh.own" % n, "6"),
+                 ("(1, 2).len", ""), ("{1: 2}.get", "1"), ("(0..3).iter().next", ""), ("5", "1"), ("nil", ""), ("%sOther" % n, "1")]
+        for fi, (val, arg) in enumerate(r.sample(kinds, r.range(4, 8))):
+            L.append("%sh.f%d = %s;" % (n, fi, val))
+            L.append("try { print(%sh.f%d(%s)); } catch e { print(type(e)); print(e.context); }" % (n, fi, arg))
+            if r.chance(50):
+                L.append("try { print((%sh.f%d)(%s)); var cp = %sh.f%d; print(cp(%s)); } catch e { print(type(e)); print(e.context); }" % (n, fi, arg, n, fi, arg))
+            if r.chance(30):
+                L.append("try { print(%sh.f%d(%s, 9)); } catch e { print(type(e)); print(e.context); }" % (n, fi, arg if arg else "8"))
+        L.append("print(%slog);" % n)
+        return L
     if c >= 4:
         # a class declared inside a method of another class: in a static method, an instance method, a constructor or a
         # lambda inside a method; the inner class has its own self / Self / super, and may capture the outer method's
@@ -297,3 +315,38 @@ def s_clsmisc(g, depth):
             "    return Local;", "}", "var %sL1 = mk%s(1); var %sL2 = mk%s(\"two\");" % (n, n, n, n),
             "print(%sL1.name()); print(%sL2.name());" % (n, n), "print(%sL1.new().get()); print(%sL1.new().get()); print(%sL2.new().get());" % (n, n, n),
             "print(%sL1 == %sL2); print(type(%sL1.new()) == %sL1);" % (n, n, n, n)]
+
+
+def host_class_program(rng):
+    """programs over a class hierarchy the embedding program declared through the host API (HAnimal <- HBird <- HParrot
+    with native methods, instances hgeneric / htweety / hpolly): nearest-method dispatch, bound methods taken as values,
+    script classes deriving from host classes with overrides and super calls, derives / type"""
+    r = rng
+    L = []
+    insts = ["hgeneric", "htweety", "hpolly"]
+    meths = ["speak", "legs", "kind"]
+    for _ in range(r.range(3, 8)):
+        i, m = r.choice(insts), r.choice(meths)
+        k = r.below(5)
+        if k == 0:
+            L.append("print(%s.%s());" % (i, m))
+        elif k == 1:
+            L.append("{ var bm = %s.%s; print(bm()); print(bm() == %s.%s()); }" % (i, m, i, m))
+        elif k == 2:
+            L.append("print([type(%s), %s.derives(HAnimal), %s.derives(HBird), %s.derives(HParrot)]);" % (i, i, i, i))
+        elif k == 3:
+            L.append("try { print(%s.%s); } catch e { print(type(e)); print(e.context); }" % (i, r.choice(["nothing", "new", "fly"])))
+        else:
+            L.append("%s.note = \"%s\"; print([%s.note, %s.%s()]);" % (i, m, i, i, m))
+    base = r.choice(["HAnimal", "HBird", "HParrot"])
+    over = r.sample(meths, r.range(0, 2))
+    L.append("#[derive(%s), constructor(new)]" % base)
+    L.append("class Scripted {")
+    for m in over:
+        L.append("    fn %s(self) { return [\"scripted %s\", super.%s()]; }" % (m, m, m))
+    L.append("    fn all(self) { return [self.speak(), self.legs(), self.kind()]; }")
+    L.append("    fn sup(self) { return [super.speak(), super.legs(), super.kind()]; }")
+    L.append("}")
+    L += ["var sc = Scripted.new();", "print(sc.all());", "print(sc.sup());", "print([sc.derives(%s), sc.derives(HAnimal), type(sc)]);" % base,
+          "#[derive(Scripted), constructor(new)] class Deeper { fn speak(self) { return \"deeper\"; } }", "print(Deeper.new().all());", "print(Deeper.new().sup());"]
+    return "\n".join(L) + "\n"
